@@ -38,6 +38,7 @@ StressClauses(rec) ==
   \cup If(rec.finalHead # rec.n \/ rec.finalHs # rec.n, "C17_final_state_equals_sequential_execution")
   \cup If(Len(rec.missing) # 0 \/ rec.finalTail = 0 \/ rec.finalTail > rec.finalHead, "C17_gap_free_chain_after_racing_tail_delete")
   \cup If(rec.finalTail # rec.tailWant, "C17_tail_is_where_the_last_successful_delete_left_it")
+  \cup If(rec.restartHead # rec.finalHead \/ rec.restartTail # rec.finalTail, "C17_final_state_survives_a_clean_restart")
   \cup If(rec.errors # 0, "C17_operation_failed_unexpectedly")
 
 \* C06 — free schedules with a Stop in the middle, then a fresh Store on the same datastore
@@ -50,6 +51,7 @@ StopClauses(rec) ==
 \* C17 — free schedules: appenders that Sync and re-read, a racing tail-side deleter, final state
 FreeC17Clauses(rec) ==
        If(rec.syncedBad # 0, "C17_appended_then_synced_header_readable")
+  \cup If(rec.restartHead # rec.head \/ rec.restartTail # rec.finalTail, "C17_final_state_survives_a_clean_restart")
   \cup If(Len(rec.missing) # 0 \/ rec.finalTail = 0 \/ rec.finalTail > rec.head, "C17_gap_free_chain_after_racing_tail_delete")
   \cup If(rec.finalTail # rec.tailWant, "C17_tail_is_where_the_last_successful_delete_left_it")
 
